@@ -232,6 +232,11 @@ func (w *World) expect(prop, row string, verr error, ok bool, wantValid bool, de
 func (w *World) ownerOf(a types.Address) (*Wallet, *addrInfo) {
 	for _, wl := range w.wallets {
 		if ai := wl.byAdr[a]; ai != nil {
+			if w.inProbe && ai.kind == "uc-odd-algorithm" {
+				// a key of an unknown algorithm accepts any signature: such
+				// addresses say nothing about tampering, the adversary rows leave them alone
+				return nil, nil
+			}
 			return wl, ai
 		}
 	}
@@ -395,6 +400,8 @@ func (w *World) runProbes(n *Node) {
 	if len(rows) == 0 || w.fatal {
 		return
 	}
+	w.inProbe = true
+	defer func() { w.inProbe = false }()
 	k := w.tape.Range(1, 3)
 	start := w.tape.Choose(len(rows))
 	for i := 0; i < k && !w.ownViolation() && !w.fatal; i++ {
